@@ -83,7 +83,13 @@ class _W:
         try:
             with open(self.errpath, "r", errors="replace") as f:
                 s = f.read()
-            return s[-4000:]
+            # the worker's last announcement (what it was about to do) must survive truncation of a long report
+            last = ""
+            for ln in s.splitlines():
+                if ln.startswith("VERIF-AT "):
+                    last = ln
+            tail = s[-6000:]
+            return tail if (not last or last in tail.splitlines()[-1:] ) else (tail + "\n" + last)
         except OSError:
             return ""
 
